@@ -47,6 +47,8 @@ func main() {
 		runC04()
 	case "c10":
 		runC10()
+	case "c12":
+		runC12()
 	default:
 		fmt.Println("unknown subcommand", os.Args[1])
 		os.Exit(2)
